@@ -1210,6 +1210,10 @@ class PX:
         if v is not ref and isinstance(v, tuple) and v:
             from .models import len_term
             return len_term(v)
+        if isinstance(ref, tuple) and ref and ref[0] in ("field", "param", "payload", "loopvar", "call"):
+            # an opaque reference value: the sequence is its pointee, as everywhere else
+            from .models import len_term
+            return len_term(("deref", ref))
         return ("len", ref)
 
     def discr_of(self, st, v, adt):
